@@ -332,11 +332,15 @@ def gen_float_for(rng, f):
     r = rng.random()
     if r < 0.25:
         x = rng.randint(-50, 50) / rng.choice([1, 2, 4, 8, 10, 3, 7])
-    elif r < 0.45:
+    elif r < 0.35:
         # a value whose product with f is near a tie k + 1/2
         k = rng.randint(-10 ** 6, 10 ** 6)
         x = (k + 0.5) / f
-    elif r < 0.65:
+    elif r < 0.6:
+        # a value whose product with f has a generic fractional part (rounding vs truncation vs floor)
+        k = rng.randint(-10 ** 6, 10 ** 6) if rng.random() < 0.7 else rng.randint(-3, 3)
+        x = (k + rng.random()) / f
+    elif r < 0.7:
         x = rng.uniform(-m, m)
     elif r < 0.8:
         x = rng.choice([-1, 1]) * (2 ** 53 + rng.randint(-5, 5) * 2) / f
@@ -364,7 +368,7 @@ def gen_tarr(rng, maxlen=4, lim=LIM // 4, scalar=None):
 
 def gen_bare(rng, unit, n=None, sc=None, lim=LIM // 4):
     f = FACT[unit]
-    kind = rng.choice(["int", "int", "int64", "int32", "float", "float64"])
+    kind = rng.choice(["int", "int64", "int32", "float", "float", "float64"])
     sc = (rng.random() < 0.4) if sc is None else sc
     n = 1 if sc else (n or rng.randint(1, 4))
     if kind.startswith("float"):
@@ -472,7 +476,7 @@ def run(ctx):
             if want is None or v != want:
                 ctx.report_fail(Fail("C01/unit-table/%s" % k, "unit table entry %s = %s, SI value %s" % (k, v, want),
                                      v, want, {"entry_point": "nitime.timeseries.time_unit_conversion", "key": k}))
-    n = ctx.scale(2500, 40000)
+    n = ctx.scale(5000, 60000)
     actions = corpus_actions() + [gen_action(ctx.rng) for _ in range(n)]
     cases = [make_case(a) for a in actions]
     kcases = [c for c in cases if c.in_k]
